@@ -584,6 +584,42 @@ func runC16(rep *Report, r *Rng, tier string) {
 			rep.Count("clobber-cases")
 		}
 	}
+	// a competitor creates the output path WHILE Flush is running: whenever the path does not exist at a commit point,
+	// another program may create it; Flush must then fail or leave that file intact (the writer must own the path
+	// from the start, O_CREAT|O_EXCL, not check-then-rename)
+	for k := 0; k < 3; k++ {
+		path := scratch(fmt.Sprintf("c16-race-%d.updog", k))
+		os.Remove(path)
+		marker := []byte("created by a competitor during Flush\n")
+		created := false
+		updog.VerifSetCommitHook(func(site string) {
+			if created {
+				return
+			}
+			f, err := os.OpenFile(path, os.O_WRONLY|os.O_CREATE|os.O_EXCL, 0644)
+			if err == nil {
+				f.Write(marker)
+				f.Close()
+				created = true
+			}
+		})
+		w := updog.NewIndexWriter(path)
+		for i := 0; i < 1200*k+5; i++ {
+			w.AddRow(map[string]string{"a": fmt.Sprint(i), "b": "x"})
+		}
+		ferr := w.Flush()
+		updog.VerifSetCommitHook(nil)
+		rep.Eval(fmt.Sprintf("competitor-%d", k), true)
+		rep.Count("competitor-during-flush")
+		if created {
+			data, _ := os.ReadFile(path)
+			if ferr == nil || !bytes.Equal(data, marker) {
+				rep.Violate(Violation{Kind: "schedule", Signature: "C16:existing-file-modified", What: fmt.Sprintf("the output path did not exist at a commit point of Flush; a file created there by another program was replaced (Flush returned %v)", ferr), Expected: "Flush fails and leaves the other file unchanged", Actual: fmt.Sprintf("%d bytes now", len(data)), Case: map[string]any{"competitor": k}})
+			}
+		}
+		os.Remove(path)
+		os.Remove(path + ".tmp")
+	}
 	// reading never modifies
 	n := 30
 	if tier == "thorough" {
